@@ -65,10 +65,9 @@ impl<T> SetListString for Vec<T>
 where
     T: Display + Ord,
 {
+    /// The list keeps its order (for undefined labels: the order of first use)
     fn as_str_list(&self) -> String {
-        let mut vec = self.iter().collect::<Vec<_>>();
-        vec.sort();
-        vec.iter()
+        self.iter()
             .map(std::string::ToString::to_string)
             .collect::<Vec<_>>()
             .join(", ")
